@@ -172,14 +172,14 @@ class QModuleMixin(ABC):
 
             assign_to_params_buffers = local_metadata.get("assign_to_params_buffers", False)
             if assign_to_params_buffers:
-                self.weight = torch.nn.Parameter(deserialized_weight)
+                self.weight = torch.nn.Parameter(deserialized_weight, requires_grad=False)
             else:
                 if type(self.weight.data) is not type(deserialized_weight):
                     # Reloading frozen weights into unfrozen module: move to the correct device and force assignment
-                    self.weight = torch.nn.Parameter(deserialized_weight.to(self.weight.device))
+                    self.weight = torch.nn.Parameter(deserialized_weight.to(self.weight.device), requires_grad=False)
                 else:
                     # FIXME: here we should copy frozen weights into frozen module, but this leads to grad error
-                    self.weight = torch.nn.Parameter(deserialized_weight.to(self.weight.device))
+                    self.weight = torch.nn.Parameter(deserialized_weight.to(self.weight.device), requires_grad=False)
 
         super()._load_from_state_dict(
             state_dict, prefix, local_metadata, False, missing_keys, unexpected_keys, error_msgs
@@ -253,8 +253,8 @@ class QModuleMixin(ABC):
     def freeze(self):
         qweight = self.qweight
         if qweight is not None:
-            # Replace float weights by quantized weights
-            self.weight = torch.nn.Parameter(qweight)
+            # Replace float weights by quantized weights (that cannot be trained anymore)
+            self.weight = torch.nn.Parameter(qweight, requires_grad=False)
 
     @property
     def frozen(self):
